@@ -1,70 +1,92 @@
-"""C11 demo 1: File opened in a '+' mode strands buffered writes (and the
-deferred close) when the reader hits end-of-file.
+"""C11 / File: a transient ENOBUFS from write(2) is treated as fatal.
 
-A File is opened 'r+' on a small existing file.  On `opened` the application
-fires three write events and then a close event.  A correct implementation
-appends the 12 bytes, then closes and fires `closed`.
+The File component writes three payloads to a pipe.  The OS-level write
+function used by circuits.io.file (fd_write == os.write) is wrapped so that it
+refuses ONE call with a transient errno and otherwise behaves normally.
+With EAGAIN and EINTR nothing is lost (control runs); with ENOBUFS the File
+fires error, closes itself and throws the buffered payloads away.
 """
+import errno
 import os
 import sys
-import tempfile
 
-from circuits import Component, Manager, handler
+import circuits.io.file as file_module
+from circuits import Component, handler
 from circuits.io import File
 from circuits.io.events import close, write
 
-tmpdir = tempfile.mkdtemp()
-path = os.path.join(tmpdir, 'data.txt')
-with open(path, 'w') as fh:
-    fh.write('0123456789')
-
-seen = []
+PAYLOADS = [b'first-', b'second-', b'third']
 
 
 class App(Component):
-    channel = 'file'
+    def init(self):
+        self.seen = []
 
-    @handler('opened')
-    def _on_opened(self, *args):
-        seen.append('opened')
-        self.fire(write(b'AAAA'))
-        self.fire(write(b'BBBB'))
-        self.fire(write(b'CCCC'))
-        self.fire(close())
-
-    @handler('eof')
-    def _on_eof(self, *args):
-        seen.append('eof')
-
-    @handler('closed')
-    def _on_closed(self, *args):
-        seen.append('closed')
-
-    @handler('error')
-    def _on_error(self, *args):
-        seen.append(('error', args))
+    @handler('opened', 'closed', 'error', channel='file')
+    def _on_any(self, event, *args):
+        self.seen.append(event.name)
 
 
-m = Manager()
-f = File(path, 'r+').register(m)
-App().register(m)
-m._running = True
-for _ in range(300):
-    m.tick(0.005)
+def run(code):
+    r, w = os.pipe()
+    os.set_blocking(r, False)
+    state = {'calls': 0}
+    real_write = os.write
 
-with open(path, 'rb') as fh:
-    content = fh.read()
+    def flaky_write(fd, data):
+        state['calls'] += 1
+        if state['calls'] == 2:  # refuse the 2nd call once, transiently
+            raise OSError(code, os.strerror(code))
+        return real_write(fd, data)
 
-print('events seen          :', seen)
-print('file content         :', content)
-print('still buffered       :', list(f._buffer))
-print('close pending (flag) :', f._closeflag, ' file closed:', f.closed)
-print('fd registered writer :', f._poller.isWriting(f._fd))
+    file_module.fd_write = flaky_write
+    try:
+        app = App()
+        File(os.fdopen(w, 'wb', 0)).register(app)
+        app._running = True
+        for _ in range(50):
+            app.tick(0.001)
+            if 'opened' in app.seen:
+                break
+        for p in PAYLOADS:
+            app.fire(write(p), 'file')
+        for _ in range(50):
+            app.tick(0.001)
+        seen_before_close = list(app.seen)
+        app.fire(close(), 'file')
+        for _ in range(50):
+            app.tick(0.001)
+    finally:
+        file_module.fd_write = real_write
+    got = b''
+    try:
+        while True:
+            d = os.read(r, 65536)
+            if not d:
+                break
+            got += d
+    except BlockingIOError:
+        pass
+    os.close(r)
+    return got, seen_before_close
 
-ok = content.endswith(b'AAAABBBBCCCC') and 'closed' in seen and not f._buffer
-if not ok:
-    print('VIOLATION: written data never reached the OS and the requested close never '
-          'took effect (writer was discarded together with the reader at EOF)')
-    sys.exit(1)
-print('ok: all writes reached the file in order, then the file closed')
-sys.exit(0)
+
+def main():
+    expected = b''.join(PAYLOADS)
+    bad = False
+    for code in (errno.EAGAIN, errno.EINTR, errno.ENOBUFS):
+        got, seen = run(code)
+        ok = got == expected and 'error' not in seen and 'closed' not in seen
+        print('%-8s one transient refusal: pipe received %r, events before the close request: %s -> %s'
+              % (errno.errorcode[code], got, seen, 'ok' if ok else 'LOST DATA'))
+        bad = bad or not ok
+    if bad:
+        print('VIOLATION: a transient refusal (ENOBUFS) made File drop buffered data and close itself '
+              '(expected %r to arrive)' % expected)
+        return 1
+    print('no violation: all payloads arrived in order after every transient refusal')
+    return 0
+
+
+if __name__ == '__main__':
+    sys.exit(main())
